@@ -111,6 +111,15 @@ class QFDriver:
             if case["hash"] == "falsy_sha":
                 from ..gen import FalsyCallable
                 self.hf = FalsyCallable(hf)
+        if case.get("hash") == "edges":
+            # a strategy whose values sit on the edges of the 32-bit range (every one a valid hash)
+            import hashlib
+            EDGES = [0, 0xFFFFFFFF, 0xFFFFFFFE, 1, 0x80000000, 0x7FFFFFFF, 0xFFFF0000, 0x0000FFFF]
+
+            def hf_edges(key, depth=0):
+                kb = key.encode("utf-8") if isinstance(key, str) else bytes(key)
+                return EDGES[hashlib.sha256(kb).digest()[0] % len(EDGES)]
+            self.hf = hf_edges
         self.hf_eff = self.hf if self.hf is not None else (lambda key, d=0: fnv_1a_32(key, 0))
         self.pool = [dk(k) for k in case.get("pool", [])] or ["a"]
         self.tops, self.lows = case["tops"], case["lows"]
@@ -300,6 +309,13 @@ class QFDriver:
                 st, got = self.call(o.get_hashes)
                 ctx.check(s, sorted(got) == sorted(self.model),
                           lambda: f"{what}: get_hashes() = {[hex(x) for x in sorted(got)]} != model {[hex(x) for x in sorted(self.model)]}")
+                if isinstance(got, list):
+                    # the list is the caller's: used up as a work stack here - the filter must not be holding on to it
+                    snapshot_ = sorted(got)
+                    del got[len(got) // 2:]
+                    got.reverse()
+                    st, again = self.call(o.get_hashes)
+                    ctx.check(s, sorted(again) == snapshot_, lambda: f"{what}: get_hashes() changed after the caller modified the list it got before")
             ctx.check(s, o.size == 2 ** o.quotient == o.num_elements and o.remainder == 32 - o.quotient, f"{what}: size/quotient/remainder")
             ctx.check(s, abs(o.load_factor - len(self.model) / o.size) < 1e-12, lambda: f"{what}: load_factor {o.load_factor} != {len(self.model)}/{o.size}")
             for k in self.pool[:3]:
@@ -342,11 +358,17 @@ def case_strategy(tier, max_ops=60):
         q = draw(st.sampled_from([3, 3, 3, 4, 4, 5]))
         dense = draw(st.integers(0, 3)) == 0
         if dense:
-            # EVERY quotient of a small table with the same two or three remainders: each insert into an earlier run shifts later
+            # EVERY quotient of a small table with the same two to five remainders: each insert into an earlier run shifts later
             # entries into slots that held an equal remainder of another quotient a moment ago
             q = draw(st.sampled_from([3, 3, 4]))
             tops = [i << (8 - q) for i in range(2 ** q)]
-            lows = [0, 1, 2][: draw(st.integers(2, 3))]
+            lows = [0, 1, 2, 3, 4][: draw(st.integers(2, 5))]  # (2-3 remainders: equal remainders everywhere; 4-5: long runs)
+        if not dense and draw(st.integers(0, 5)) == 0:
+            # FEW neighbouring quotients with many remainders each: long runs whose successors' runs are all displaced
+            q = draw(st.sampled_from([4, 4, 5]))
+            b0 = draw(st.integers(0, 2 ** q - 1))
+            tops = sorted({((b0 + i) % 2 ** q) << (8 - q) for i in range(draw(st.integers(3, 5)))})
+            lows = list(range(draw(st.integers(4, 7))))
         ti, ri = st.integers(0, len(tops) - 1), st.integers(0, len(lows) - 1)
         ops = [st.tuples(st.just("add"), ti, ri)] * 6 + [st.tuples(st.just("remove"), ti, ri)] * 3 + [
             st.tuples(st.just("addkey"), st.integers(0, 5)), st.tuples(st.just("removekey"), st.integers(0, 5)),
@@ -358,7 +380,7 @@ def case_strategy(tier, max_ops=60):
         return {
             "q": q, "auto": draw(st.booleans()), "dense": dense,
             "mlf": draw(st.sampled_from([None, None, None, 0.5, 0.95, 1.0, 0.25])),
-            "hash": draw(st.sampled_from(["default", "default", "sha", "falsy_sha"])),
+            "hash": draw(st.sampled_from(["default", "default", "sha", "falsy_sha", "edges"])),
             "tops": tops, "lows": lows, "pool": draw(gen.pool_st(2, 6)),
             "ops": [list(o) for o in draw(st.lists(st.one_of(*ops), min_size=4, max_size=max_ops))],
             # look-ups after every step would refresh anything the filter remembers from its last look-up before the next update
